@@ -29,10 +29,18 @@ def has_attr(case):
     return any(l.startswith(("attr ", "inv ")) for l in case.proto)
 
 
+KNOWN_TYPE_WHERE = "type-where-resolved-in-importing-scope"
+
+
 def oracle(case, tool, ob):
     """C04's statement for one tool run.  -> (key, what) | None"""
     st = ob["status"]
     errs = [d for d in ob["diags"] if d[4]]
+    rest, n_ws = X.split_wrong_scope(case, ob["diags"])
+    if n_ws and case.verdict == "accept" and not [d for d in rest if d[4]] and st == "1":
+        d0 = next(d for d in ob["diags"] if d[0] == "UNDEFINED_FUNC")
+        return (KNOWN_TYPE_WHERE, f"{tool} rejects a well-formed multi-schema file: {d0[1]}:{d0[2]}: {d0[3]!r} — the function is declared in the "
+                                  "type's own schema; the WHERE rule of the imported type was resolved in the importing schema's scope")
     crashed = st in ("abort", "timeout") or st.startswith("signal")
     if tool == "exp2python" and crashed and case.verdict == "accept" and not errs:
         if any(l.startswith("iface ") and l.endswith(" items") for l in case.proto):
@@ -86,7 +94,12 @@ def run_cases(ctx, b, model, table, cases, label, tools):
             m = X.parse_run_reply(replies[ci][1 + ti], table)
             drop = X.ORDER_DEPENDENT | ({"OVERLOADED_ATTR", "UNKNOWN_ATTR_IN_ENTITY"} if c.cls == "subtype-cycle" else set())
             wl = not getattr(c, "fixed_lines", False)
-            a, mm = X.canon(ob["diags"], with_lines=wl, drop=drop), X.canon(m["diags"], with_lines=wl, drop=drop)
+            real_d, n_ws = X.split_wrong_scope(c, ob["diags"])
+            if n_ws:
+                ctx.hist("observations", "type WHERE rule resolved in an importing schema's scope (known finding)")
+                if not [d for d in real_d if d[4]] and m["status"] == "0":
+                    continue
+            a, mm = X.canon(real_d, with_lines=wl, drop=drop), X.canon(m["diags"], with_lines=wl, drop=drop)
             st_ok = ob["status"] == m["status"] or (c.cls == "subtype-cycle" and ob["status"] == "signal11") or \
                 (m.get("diverges") == "1" and (ob["status"] == "abort" or ob["status"].startswith("signal")))
             if ob["status"] == "signal11":
